@@ -58,6 +58,10 @@ class StubMaterial:
     # ---- symbolic atoms ------------------------------------------------------------------------
     def _atoms(self, Fq):
         """ghost atoms for one batch item Fq (dim x dim object array)"""
+        with ring.LOCK:
+            return self._atoms_locked(Fq)
+
+    def _atoms_locked(self, Fq):
         d = self.dim
         key = tuple(co(Fq[i, j]).key() for i in range(d) for j in range(d))
         if key in self._cache:
@@ -168,6 +172,10 @@ class StubPotential:
 
     def atoms(self, args):
         """(grad[n], hess[n, n]) ghost atoms for LP arguments `args`"""
+        with ring.LOCK:
+            return self._atoms_locked(args)
+
+    def _atoms_locked(self, args):
         args = [co(a) for a in args]
         key = tuple(a.key() for a in args)
         if key in self._cache:
